@@ -51,21 +51,30 @@ def lean_char(c):
 
 
 def load_remove_atom_mapping():
-    """the function object compiled from the current source text, plus the regex literals it contains"""
+    """the function the pipeline calls (imported from the current tree), plus the regex literals of its source text
+    (documentation only: the function body and any module-level `re.compile(...)`), best effort"""
+    import importlib
+
     src = os.path.join(REPO, "synrbl/SynUtils/chem_utils.py")
-    with open(src) as f:
-        tree = ast.parse(f.read())
-    fn = None
-    for node in tree.body:
-        if isinstance(node, ast.FunctionDef) and node.name == "remove_atom_mapping":
-            fn = node
-    if fn is None:
-        raise KeyError("remove_atom_mapping not found in %s" % src)
-    literals = [n.value for n in ast.walk(fn) if isinstance(n, ast.Constant) and isinstance(n.value, str)]
-    mod = ast.Module(body=[fn], type_ignores=[])
-    ns = {"re": re}
-    exec(compile(mod, src, "exec"), ns)
-    return ns["remove_atom_mapping"], literals
+    mod = importlib.import_module("synrbl.SynUtils.chem_utils")
+    if os.path.realpath(getattr(mod, "__file__", "")) != os.path.realpath(src):
+        raise ImportError("synrbl.SynUtils.chem_utils was imported from %s, not from %s" % (getattr(mod, "__file__", None), src))
+    fn = getattr(mod, "remove_atom_mapping")
+    literals = []
+    try:
+        with open(src) as f:
+            tree = ast.parse(f.read())
+        for node in tree.body:
+            if isinstance(node, ast.FunctionDef) and node.name == "remove_atom_mapping":
+                literals += [n.value for n in ast.walk(node) if isinstance(n, ast.Constant) and isinstance(n.value, str)
+                             and n.value != ast.get_docstring(node)]
+            elif isinstance(node, ast.Assign):
+                for n in ast.walk(node.value):
+                    if isinstance(n, ast.Call) and getattr(n.func, "attr", None) == "compile" and n.args and isinstance(n.args[0], ast.Constant):
+                        literals.append(n.args[0].value)
+    except Exception:
+        pass
+    return fn, literals
 
 
 def all_envs():
